@@ -642,6 +642,9 @@ where
                     return Err(RecvError::InvalidIndex(i));
                 }
                 self.v.insert(i, v);
+                if self.v.len() > self.max_size {
+                    return Err(RecvError::MaxSizeExceeded(self.max_size));
+                }
             }
             VecEvent::Set(i, v) => {
                 if i >= self.v.len() {
@@ -665,6 +668,9 @@ where
                 self.v.fill(v);
             }
             VecEvent::Resize(l, v) => {
+                if l > self.v.len() && l > self.max_size {
+                    return Err(RecvError::MaxSizeExceeded(self.max_size));
+                }
                 self.v.resize(l, v);
             }
             VecEvent::Truncate(l) => {
